@@ -155,7 +155,12 @@ theorem applyOp_ord (s : Store) (op : Op) (ho : op.WF) (h : Inv s) (o : Ord s) :
   | setNodeMeta n md => exact o.of_eq (f2 n md).1 (f2 n md).2.1 (f2 n md).2.2
   | setEdgeMeta e md => exact o.of_eq (f3 e md).1 (f3 e md).2.1 (f3 e md).2.2
   | setHMeta md => exact o.of_eq rfl rfl rfl
-  | setAttrH a v => exact o.of_eq rfl rfl rfl
+  | setAttrH a v =>
+    show Ord (setAttrHOp s a v).1
+    unfold setAttrHOp
+    split
+    · exact o
+    · exact o.of_eq rfl rfl rfl
   | setAttrNode n a v => exact o.of_eq (f4 n a v).1 (f4 n a v).2.1 (f4 n a v).2.2
   | setAttrEdge e a v => exact o.of_eq (f5 e a v).1 (f5 e a v).2.1 (f5 e a v).2.2
   | delAttrNode n a => exact o.of_eq (f6 n a).1 (f6 n a).2.1 (f6 n a).2.2
@@ -311,7 +316,12 @@ theorem abs_applyOp (s : Store) (op : Op) (ho : op.WF) (h : Inv s) (o : Ord s) :
   | setNodeMeta n md => exact abs_setNodeMeta s n md h
   | setEdgeMeta e md => exact abs_setEdgeMeta s e md h
   | setHMeta md => exact ⟨rfl, rfl⟩
-  | setAttrH a v => exact ⟨rfl, rfl⟩
+  | setAttrH a v =>
+    show abs (setAttrHOp s a v).1 = (Spec.setAttrHOp (abs s) a v).1 ∧ (setAttrHOp s a v).2 = (Spec.setAttrHOp (abs s) a v).2
+    unfold setAttrHOp Spec.setAttrHOp
+    have hh : (abs s).hmeta = s.hmeta := rfl
+    rw [hh]
+    split <;> exact ⟨rfl, rfl⟩
   | setAttrNode n a v => exact abs_setAttrNode s n a v h
   | setAttrEdge e a v => exact abs_setAttrEdge s e a v h
   | delAttrNode n a => exact abs_delAttrNode s n a h
